@@ -332,6 +332,12 @@ fn structural_cases(text: &str, out: &mut Vec<Case>) {
         push("prefix-undeclared-with-empty-uri", splice(text, t.name.1, 0, " xmlns:zp=\"\""), Expect::Reject);
         push("declare-prefix-xmlns", splice(text, t.name.1, 0, " xmlns:xmlns=\"urn:y\""), Expect::Reject);
         push("bind-to-xmlns-namespace", splice(text, t.name.1, 0, " xmlns:zx=\"http://www.w3.org/2000/xmlns/\""), Expect::Reject);
+        // the same name spelled with a character reference, and as the default namespace
+        push("bind-to-xmlns-namespace", splice(text, t.name.1, 0, " xmlns:zx=\"http://www.w3.org/2000/xmlns&#47;\""), Expect::Reject);
+        push("bind-to-xmlns-namespace", splice(text, t.name.1, 0, " xmlns:zx=\"&#x68;ttp://www.w3.org/2000/xmlns/\""), Expect::Reject);
+        if !text[t.start..t.end].contains(" xmlns=") {
+            push("default-namespace-is-xmlns-namespace", splice(text, t.name.1, 0, " xmlns=\"http://www.w3.org/2000/xmlns/\""), Expect::Any);
+        }
         push("prefixed-xmlns-attribute", splice(text, t.name.1, 0, " xmlns:zy=\"urn:zy\" zy:xmlns=\"v\""), Expect::Accept);
         push("attribute-without-value", splice(text, t.name.1, 0, " novalue"), Expect::Reject);
         push("unquoted-attribute", splice(text, t.name.1, 0, " a1=v"), Expect::Reject);
@@ -347,7 +353,7 @@ fn structural_cases(text: &str, out: &mut Vec<Case>) {
         let s2 = splice(&s1, a.name.1, 0, " xml:id=\"dupid\"");
         push("duplicate-xml-id-two-elements", s2, Expect::Reject);
         // xml:id values are normalised before they are compared
-        for (va, vb) in [("dupid", " dupid"), (" dupid", "dupid "), ("dup id", "dup   id"), ("dupid", "&#32;dupid"), (" dupid", " dupid"), ("", ""), (" ", ""), ("\t", "  "), ("é1", "é1"), (" é\u{1F600}", "é\u{1F600} ")] {
+        for (va, vb) in [("dupid", " dupid"), (" dupid", "dupid "), ("dup id", "dup   id"), ("dupid", "&#32;dupid"), (" dupid", " dupid"), ("dupid", "dup&#105;d"), ("&#x64;upid", "dupid"), ("", ""), (" ", ""), ("\t", "  "), ("é1", "é1"), (" é\u{1F600}", "é\u{1F600} ")] {
             let s1 = splice(text, b.name.1, 0, &format!(" xml:id=\"{}\"", vb));
             let s2 = splice(&s1, a.name.1, 0, &format!(" xml:id=\"{}\"", va));
             push("duplicate-xml-id-after-normalisation", s2, Expect::Reject);
